@@ -65,7 +65,7 @@ def _build(pdm, region: Dict[str, Any], rid, counter: List[int]):
     return pdm.PageXMLTextRegion(rid, lines=lines, text_regions=subs)
 
 
-def _run_real(inp: Dict[str, Any], region: Dict[str, Any]) -> Dict[str, Any]:
+def _run_real(inp: Dict[str, Any], region: Dict[str, Any], again: bool = False) -> Dict[str, Any]:
     cp, pdm = _real()
 
     def f():
@@ -78,22 +78,39 @@ def _run_real(inp: Dict[str, Any], region: Dict[str, Any]) -> Dict[str, Any]:
             kw['gap_threshold'] = inp['thr']
         if inp.get('mcw') is not None:
             kw['min_column_width'] = inp['mcw']
-        old = sys.getrecursionlimit()
-        sys.setrecursionlimit(RECURSION_LIMIT)
-        try:
-            cols = cp.split_lines_on_column_gaps(reg, **kw)
-        finally:
-            sys.setrecursionlimit(old)
-        out = []
-        for c in cols:
-            b = c.coords.box
-            out.append({'lines': sorted(l.id for l in c.lines),
-                        'line_boxes': sorted([l.id, l.coords.left, l.coords.top, l.coords.right, l.coords.bottom]
-                                             for l in c.lines),
-                        'box': [b['x'], b['y'], b['w'], b['h']], 'id': c.id})
-        out.sort(key=lambda c: (c['box'], c['lines'], str(c['id'])))
-        return out
-    return canon(call(f))
+        def split():
+            old = sys.getrecursionlimit()
+            sys.setrecursionlimit(RECURSION_LIMIT)
+            try:
+                cols = cp.split_lines_on_column_gaps(reg, **kw)
+            finally:
+                sys.setrecursionlimit(old)
+            out = []
+            for c in cols:
+                b = c.coords.box
+                out.append({'lines': sorted(l.id for l in c.lines),
+                            'line_boxes': sorted([l.id, l.coords.left, l.coords.top, l.coords.right, l.coords.bottom]
+                                                 for l in c.lines),
+                            'box': [b['x'], b['y'], b['w'], b['h']], 'id': c.id})
+            out.sort(key=lambda c: (c['box'], c['lines'], str(c['id'])))
+            return out
+
+        def snap():
+            return [reg.id, [[l.id, l.coords.left, l.coords.top, l.coords.right, l.coords.bottom] for l in reg.get_lines()]]
+        before = snap()
+        first = split()
+        if not again:
+            return {'cols': first}
+        # history: the SAME region object split a second time (the model is pure: same answer), and the region's
+        # lines (ids, boxes, get_lines() order) looked at before and after
+        return {'cols': first, 'again': call(split), 'unchanged': before == snap()}
+    res = canon(call(f))
+    if 'ok' not in res:
+        return res
+    out = {'ok': res['ok']['cols']}
+    if again:
+        out['again'], out['unchanged'] = res['ok']['again'], res['ok']['unchanged']
+    return out
 
 
 def _model_req(inp: Dict[str, Any], region: Dict[str, Any]) -> Dict[str, Any]:
@@ -171,7 +188,11 @@ class C18(Check):
                   'Generated/C18.lean); proofs use only the named relations C18_consts_* about them; cases tagged '
                   'default-thr / mcw None call the real function without the argument and the model follows the source. '
                   'Inputs outside the quantifier (zero-size boxes, thresholds outside 1..200, explicit minimum widths) '
-                  'are mirrored as an observation only (tagged outside-quantifier: differences recorded, not judged).')
+                  'are mirrored as an observation only (tagged outside-quantifier: differences recorded, not judged). '
+                  'Histories (wave 4): every region OBJECT is split twice (second answer judged and compared with the first '
+                  'and with the pure model; ids / boxes / get_lines() order of the region snapshotted before and after), '
+                  'the translated region is split in between and the original input once more afterwards; '
+                  'find_column_gaps is asked again after a call with another threshold on the same lines.')
     assumptions = ['parse_derived_coords: the bounding box of the hull is the union of the input boxes (C09), no '
                    'QhullError since fc690f6 (sampled by the correspondence, also on zero-size boxes)',
                    'float comparison overlap/width > t agrees with overlap*q > p*width (t = p/q the decimal literal of the '
@@ -467,11 +488,19 @@ class C18(Check):
 
             def f():
                 reg = _build(pdm, inp['region'], 'r', [0])
-                return [[d['start'], d['end']] for d in cp.find_column_gaps(reg.get_lines(), inp['thr'])]
+                lines = reg.get_lines()
+                first = [[d['start'], d['end']] for d in cp.find_column_gaps(lines, inp['thr'])]
+                # history: another threshold on the same lines in between, then the same question again
+                cp.find_column_gaps(lines, inp['thr'] + 7)
+                second = [[d['start'], d['end']] for d in cp.find_column_gaps(lines, inp['thr'])]
+                if second != first:
+                    return {'first': first, 'second': second}
+                return first
             return canon(call(f))
-        base = _run_real(inp, inp['region'])
-        moved = _run_real(inp, _move_region(inp['region'], inp['dx'], inp['dy']))
-        return {'base': base, 'moved': moved}
+        base = _run_real(inp, inp['region'], again=True)
+        moved = _run_real(inp, _move_region(inp['region'], inp['dx'], inp['dy']), again=True)
+        # ... and the first region once more (a fresh object), after another region was split in this process
+        return {'base': base, 'moved': moved, 'base_after': _run_real(inp, inp['region'])}
 
     # ---------------------------------------------------------------- model
     def requests(self, case: Case):
@@ -488,6 +517,15 @@ class C18(Check):
             i, m = _strip_impl(impl_out[name]), _canon_model(ans)
             if i != m:
                 return f'{name}: impl={short(i)} model={short(m)}'
+            # the pure model gives the same answer for the second call on the same region object
+            if 'again' in impl_out[name]:
+                i = _strip_impl(impl_out[name]['again'])
+                if i != m:
+                    return f'{name}, second call on the same region: impl={short(i)} model={short(m)}'
+        if 'base_after' in impl_out:
+            i, m = _strip_impl(impl_out['base_after']), _canon_model(model_out[0])
+            if i != m:
+                return f'base, after another region was split: impl={short(i)} model={short(m)}'
         return None
 
     # ---------------------------------------------------------------- oracle
@@ -552,6 +590,10 @@ class C18(Check):
 
     def oracle(self, case: Case, out: Any) -> List[Finding]:
         fs: List[Finding] = []
+        if case.kind == 'gaps' and isinstance(out.get('ok'), dict) and self.in_quantifier(dict(case.input, mcw=None)):
+            fs.append(Finding('C18:gaps-not-repeatable', f'find_column_gaps on the same lines and threshold gives '
+                              f'{out["ok"]["second"]} after a call with another threshold, the first time {out["ok"]["first"]}',
+                              case, out))
         if case.kind != 'split' or not self.in_quantifier(case.input):
             return fs
         inp = case.input
@@ -563,6 +605,25 @@ class C18(Check):
                 fs.append(Finding(f'C18:{key}', what, case, out))
         base = self._judge(inp, inp['region'], out['base'], bad, 'input')
         moved = self._judge(inp, _move_region(inp['region'], inp['dx'], inp['dy']), out['moved'], bad, 'translated')
+        # histories: the same region object split a second time, and the same input split again after another region
+        # went through the function — each run judged as above, and its columns those of the first run
+        for name, region in (('base', inp['region']), ('moved', _move_region(inp['region'], inp['dx'], inp['dy']))):
+            o = out[name]
+            if 'again' in o and 'ok' in o:
+                self._judge(inp, region, o['again'], lambda k, w: bad(k + ':second-call', w),
+                            'the same region object split a second time')
+                if _strip_impl(o['again']) != _strip_impl(o):
+                    bad('not-repeatable:same-region', f'splitting the same region a second time gives '
+                                                      f'{short(_strip_impl(o["again"]))}, the first time {short(_strip_impl(o))}')
+                if not o['unchanged']:
+                    bad('input-mutated', 'the lines of the region (ids, boxes, order of get_lines()) were changed by splitting')
+        if 'base_after' in out and 'ok' in out['base']:
+            self._judge(inp, inp['region'], out['base_after'], lambda k, w: bad(k + ':after-another-region', w),
+                        'the input split again after another region was split')
+            if _strip_impl(out['base_after']) != _strip_impl(out['base']):
+                bad('not-repeatable:after-another-region',
+                    f'splitting the same input again after another region gives {short(_strip_impl(out["base_after"]))}, '
+                    f'the first time {short(_strip_impl(out["base"]))}')
         if base is not None and moved is not None:
             dx, dy = inp['dx'], inp['dy']
             if set(base) != set(moved):
